@@ -388,6 +388,8 @@ BAD_SHAPES = [
     {"in_ch": -100}, {"out_ch": -100}, {"mask_len": -100},
     {"short_in": [0, 1]}, {"short_in": [0, -1]}, {"short_out": [0, 1]}, {"short_out": [0, -1]},
     {"short_in": [0, 1], "short_out": [0, 1]}, {"in_ch": 1, "out_ch": -1},
+    # too long a mask whose surplus entries are FALSE (code that walks the mask instead of the channels)
+    {"mask_len": 1, "mask_tail": False}, {"mask_len": 3, "mask_tail": False},
 ]
 
 
@@ -539,6 +541,8 @@ def ctor_table(rng):
                 op["degree"] = rng.choice(DEGREES)
             else:
                 op.update({"L": rng.choice([8, 64]), "F": rng.choice([2, 16]), "interp": rng.choice(INTERPS)})
+                # both public constructors: new() and new_with_interpolator() (a caller-supplied kernel)
+                op["probe"] = rng.choice(["dispatch", "scalar", "linear", "avx"])
             ops.append(op)
     for kind in FFT:
         for _ in range(5):
